@@ -816,6 +816,8 @@ class ParametricSpectrum(Spectrum):
         if ar is not None:
             if ar < 0:
                 raise errors.SpectrumARError
+            if ar != self.__ar_order:
+                self.modified = True
             self.__ar_order = ar
     def _get_ar_order(self):
         return self.__ar_order
@@ -825,12 +827,23 @@ class ParametricSpectrum(Spectrum):
         if ma is not None:
             if ma < 0:
                 raise errors.SpectrumMAError
+            if ma != self.__ma_order:
+                self.modified = True
             self.__ma_order = ma
         else:
             self.__ma_order = None
     def _get_ma_order(self):
         return self.__ma_order
     ma_order = property(fget=_get_ma_order, fset=_set_ma_order, doc="")
+
+    def _set_lag(self, lag):
+        if lag != getattr(self, '_ParametricSpectrum__lag', None):
+            self.modified = True
+        self.__lag = lag
+    def _get_lag(self):
+        return self.__lag
+    lag = property(fget=_get_lag, fset=_set_lag,
+                   doc="maximum lag used by the ARMA estimator")
 
     def _set_ma(self, ma):
         self.__ma = ma
